@@ -98,6 +98,12 @@ func c17Programs() []c17Prog {
 		}},
 		{"unknown", "%unknown", func(map[string]any, *c17State, []fhir.Resource) ([]any, bool) { return nil, true }},
 		{"unknown-in-where", "Patient.name.where(%unknown = 1)", func(map[string]any, *c17State, []fhir.Resource) ([]any, bool) { return nil, true }},
+		// an operand of a Boolean operator is evaluated whatever the other operand is (C06: a multi-item operand is an error
+		// next to false as well), so the unknown variable is met
+		{"unknown-right-of-and", "false and %unknown", func(map[string]any, *c17State, []fhir.Resource) ([]any, bool) { return nil, true }},
+		{"unknown-right-of-or", "true or %unknown", func(map[string]any, *c17State, []fhir.Resource) ([]any, bool) { return nil, true }},
+		{"unknown-right-of-implies", "false implies %unknown", func(map[string]any, *c17State, []fhir.Resource) ([]any, bool) { return nil, true }},
+		{"unknown-in-criterion-operand", "Patient.where(active.not() and %unknown).exists()", func(map[string]any, *c17State, []fhir.Resource) ([]any, bool) { return nil, true }},
 		{"delimited", "%`a`", varOr("a", splice)},
 		{"string-named", "%'a'", varOr("a", splice)},
 		{"probe", "probe()", func(_ map[string]any, _ *c17State, in []fhir.Resource) ([]any, bool) { return []any{in[0]}, false }},
@@ -256,7 +262,20 @@ var c17Calls = []c17Call{
 	{"pair(1, pair(2, 3))", "pair", 2, "nested-pair", "", nil},
 	{"pair(pair(2, 3), 1)", "pair", 2, "nested-pair2", "", nil},
 	{"nosuch()", "nosuch", 0, "compile-error", "", nil},
+	// programs that do not parse: still the option's error when an option fails, a Compile error otherwise
+	{"f(", "f", 0, "compile-error", "", nil},
+	{"Patient.where(%v", "", 0, "compile-error", "", nil},
+	{"%", "", 0, "compile-error", "", nil},
+	{"'unterminated", "", 0, "compile-error", "", nil},
+	{"", "", 0, "compile-error", "", nil},
 	{"Patient.name.where(true).count()", "", 0, "builtin", "", nil},
+}
+
+func c17CallClass(src string) string {
+	if lib.Compile(src).CompileErr != nil && !strings.Contains(src, "()") && !strings.Contains(src, "', '") {
+		return "unparsable-program"
+	}
+	return src
 }
 
 func init() {
@@ -644,6 +663,18 @@ func init() {
 						if optionFails {
 							if comp.CompileErr == nil {
 								r.Fail("compile-options|"+call.src+"|failing-option-ignored", w("compiled"))
+							} else {
+								// "returns that error": the error is the option's, whatever the program is - the same option list in
+								// front of the program `1` fails with the same error
+								var ropts []fhirpath.CompileOption
+								for _, s := range seq {
+									ropts = append(ropts, fs.option(c17CAlphabet[s]))
+								}
+								ref := lib.Compile("1", ropts...)
+								r.Eval()
+								if ref.CompileErr != nil && ref.CompileErr.Error() != comp.CompileErr.Error() {
+									r.Fail("compile-options|"+c17CallClass(call.src)+"|another-error-than-the-failing-option's", core.W{"options": listID, "src": call.src, "got": comp.CompileErr.Error(), "option_error": ref.CompileErr.Error()})
+								}
 							}
 							if totalCalls() != 0 {
 								r.Fail("compile-options|"+call.src+"|custom-function-called-during-failed-compile", w(""))
